@@ -48,8 +48,9 @@ def main() -> None:
 
     def open_(self, mode="r", *a, **k):
         f = orig_open(self, mode, *a, **k)
-        if any(c in mode for c in "wax+") and "b" not in mode and str(self).startswith(args["out_abs"]):
-            return _W(f, self, mode)
+        if any(c in mode for c in "wax+") and "b" not in mode:
+            # every text file the tool writes, wherever it lies; the path as the file system sees it ("//tmp/x" is "/tmp/x")
+            return _W(f, os.path.realpath(str(self)), mode)
         return f
 
     pathlib.Path.open = open_
